@@ -10,7 +10,7 @@ const char *behav_name(int b) {
 	static const char *n[] = {"honest", "foreign-id", "stale-gen", "other-hash", "broken-link", "lc-256", "lc-2^32", "low-level",
 		"wrong-agg-time", "wrong-pub-time", "bad-shape", "other-input", "altered-right-link", "status-err", "error-pdu",
 		"bad-mac", "other-key", "other-alg", "other-ver", "no-header", "no-mac", "truncated", "garbage-pdu", "conf-only",
-		"with-conf", "no-cal"};
+		"with-conf", "no-cal", "index-gap", "index-short", "index-prefix", "index-shape"};
 	return (b >= 0 && b < B__COUNT) ? n[b] : "?";
 }
 
@@ -202,6 +202,23 @@ std::string World::seal(const EndpointCfg &ep, bool response, const std::vector<
 		Tlv top = Tlv::nest(base + (response ? 0x21 : 0x20), {});
 		if (behav != B_NO_HEADER) top.add(hdr);
 		for (auto &p : payload) top.add(p);
+		if (pad_total && response) {
+			// measure without padding, then add an element of the missing size (TLV16 header = 4 bytes)
+			Tlv probe = top;
+			if (behav != B_NO_MAC) probe.add(Tlv::raw(0x1f, std::string(1 + hash_len(alg), '\0')));
+			size_t have = probe.enc().size();
+			if (have < 300) have += 0; // top is TLV16 anyway once padded
+			size_t top_hdr = 4, cur_hdr = have > 257 ? 4 : 2;
+			size_t body = have - cur_hdr;
+			if (pad_total > body + top_hdr + 4) {
+				size_t L = pad_total - body - top_hdr - 4;
+				std::string fill(L, '\0');
+				for (size_t i = 0; i < L; i++) fill[i] = (char)(0x80 | ((i * 37 + subseed) & 0x3f)); // looks like nothing: TLV-ish noise
+				Tlv padel = Tlv::raw(0x1e, fill);
+				padel.nc = true; padel.fwd = true; padel.force16 = true;
+				top.add(padel);
+			}
+		}
 		if (behav != B_NO_MAC) {
 			int hl = hash_len(alg);
 			top.add(Tlv::raw(0x1f, std::string(1, (char)alg) + std::string(hl, '\0')));
@@ -251,7 +268,7 @@ std::string World::seal(const EndpointCfg &ep, bool response, const std::vector<
 std::vector<AggChain> World::build_chains(const std::string &hash, uint64_t level, uint64_t t, uint64_t subseed, int behav, std::string &root, int &root_level, int nchains, int start_level) {
 	Rng rng(sim::mix(subseed, 0xc4a1));
 	int n = nchains > 0 ? nchains : (int)rng.range(1, 3);
-	if (behav == B_BROKEN_LINK && n < 2) n = 2;
+	if ((behav == B_BROKEN_LINK || behav == B_INDEX_GAP || behav == B_INDEX_SHORT || behav == B_INDEX_PREFIX) && n < 2) n = 2;
 	std::vector<AggChain> cs(n);
 	std::string cur = hash;
 	int lvl = start_level;
@@ -300,6 +317,20 @@ std::vector<AggChain> World::build_chains(const std::string &hash, uint64_t leve
 	// indices: top chain has one element, each lower chain appends its own shape
 	std::vector<uint64_t> idx;
 	for (int i = n - 1; i >= 0; i--) { idx.push_back(cs[i].shape()); cs[i].index = idx; }
+	if (behav == B_INDEX_GAP || behav == B_INDEX_SHORT || behav == B_INDEX_PREFIX) {
+		// deviations of the chain-index continuation between chain k (lower) and chain k+1; hashes still link up
+		int k = (int)rng.below((uint64_t)n - 1);
+		std::vector<uint64_t> up = cs[k + 1].index;
+		uint64_t own = cs[k].shape();
+		if (behav == B_INDEX_GAP) { for (uint64_t e = 0, m = 1 + rng.below(2); e < m; e++) up.push_back(2 + rng.below(30)); up.push_back(own); }
+		else if (behav == B_INDEX_SHORT) { if (rng.chance(1, 2) && up.size() > 1) up.pop_back(); up.back() = own; }
+		else { up[rng.below(up.size())] ^= 1 + rng.below(6); up.push_back(own); }
+		for (int j = k; j >= 0; j--) {
+			if (j == k) cs[j].index = up;
+			else { cs[j].index = cs[j + 1].index; cs[j].index.push_back(cs[j].shape()); }
+		}
+	}
+	if (behav == B_INDEX_SHAPE) { AggChain &c = cs[rng.below((uint64_t)n)]; c.index.back() ^= 1 + rng.below(3); if (c.index.back() == 0) c.index.back() = 5; }
 	root = cur;
 	root_level = lvl;
 	return cs;
@@ -391,7 +422,8 @@ std::string World::aggr_reply(const ReqInfo &rq, const EndpointCfg &ep, int beha
 std::string World::ext_reply(const ReqInfo &rq, const EndpointCfg &ep, int behav, uint64_t subseed, ReplyMeta &meta) {
 	Rng rng(sim::mix(subseed, 0xe47));
 	// behaviours that only make sense for aggregation chains are plain honest replies here
-	if (behav == B_OTHER_HASH || behav == B_BROKEN_LINK || behav == B_LC_256 || behav == B_LC_2P32 || behav == B_LOW_LEVEL || behav == B_NO_CAL) behav = B_HONEST;
+	if (behav == B_OTHER_HASH || behav == B_BROKEN_LINK || behav == B_LC_256 || behav == B_LC_2P32 || behav == B_LOW_LEVEL || behav == B_NO_CAL ||
+	    behav == B_INDEX_GAP || behav == B_INDEX_SHORT || behav == B_INDEX_PREFIX || behav == B_INDEX_SHAPE) behav = B_HONEST;
 	if (behav == B_WRONG_PUB_TIME && !rq.has_pub_time) behav = B_HONEST; // any publication time answers a request that names none
 	meta = ReplyMeta();
 	meta.behav = behav;
